@@ -50,6 +50,18 @@ fn schemes(seed: u64) -> Vec<Scheme> {
     v
 }
 
+/// the bytes the server actually pushes for scheme i: some servers' scheme text ends in a newline or is
+/// surrounded by blank space (a file read verbatim); the md5 identity is over exactly these bytes
+fn raw(sch: &[Scheme], i: usize) -> String {
+    let t = sch[i].text();
+    match i % 4 {
+        1 => format!("{t}\n"),
+        2 => format!("\n{t}\n\n"),
+        3 => format!("{t}  "),
+        _ => t,
+    }
+}
+
 pub fn gen_history(rng: &mut Rng) -> History {
     let nsess = rng.usize(1, 3);
     let mut sessions = Vec::new();
@@ -169,7 +181,7 @@ async fn run_history(h: &History) -> Value {
                     }
                 }
                 Step::Push(i) => {
-                    let raw = sch[*i].text();
+                    let raw = raw(&sch, *i);
                     if cv.peer.send(refcodec::UPDATE_PADDING, 0, raw.as_bytes()).await.is_err() {
                         problems.push(json!({"symptom": "session_disturbed", "detail": "client side of the transport is gone"}));
                         break;
@@ -355,10 +367,10 @@ pub fn run_client_level(ctx: Ctx) -> Report {
                         break;
                     }
                 }
-                let want_md5 = format!("{:x}", md5::compute(sch[current].text().as_bytes()));
+                let want_md5 = format!("{:x}", md5::compute(raw(&sch, current).as_bytes()));
                 let got_md5 = settings.as_ref().and_then(|m| m.get("padding-md5").cloned()).unwrap_or_default();
                 if got_md5 != want_md5 {
-                    let which: Vec<usize> = (0..sch.len()).filter(|i| format!("{:x}", md5::compute(sch[*i].text().as_bytes())) == got_md5).collect();
+                    let which: Vec<usize> = (0..sch.len()).filter(|i| format!("{:x}", md5::compute(raw(&sch, *i).as_bytes())) == got_md5).collect();
                     rep.violate("scheme_push", "client_level", "later_session_announces_old_scheme", format!("session #{k}: announces padding-md5 {got_md5} (scheme {:?}); scheme #{current} was pushed before and must be announced so that it is not pushed again", which), case.clone());
                 } else {
                     rep.add("client_level_md5_announcements_checked", 1);
@@ -366,7 +378,7 @@ pub fn run_client_level(ctx: Ctx) -> Report {
                 // the server side: push when told to, then accept the open
                 let _ = conn.send(refcodec::SERVER_SETTINGS, 0, b"v=2").await;
                 if let Some(p) = push {
-                    let _ = conn.send(refcodec::UPDATE_PADDING, 0, sch[*p].text().as_bytes()).await;
+                    let _ = conn.send(refcodec::UPDATE_PADDING, 0, raw(&sch, *p).as_bytes()).await;
                     current = *p;
                     rep.add("client_level_pushes", 1);
                 }
